@@ -4,7 +4,7 @@
 //! must be rejected). Honest proofs are also checked against perturbed public inputs.
 use std::sync::Arc;
 
-use winter_air::FieldExtension;
+use winter_air::{proof::Proof, FieldExtension};
 use winter_verifier::AcceptableOptions;
 use wfv::{
     genair::*,
@@ -60,6 +60,12 @@ fn shape_for(i: u64, rng: &mut Rng) -> Shape {
         sh.rules.push(Rule::Pow { d: 2, a: 1, b: 1, src: 0, per: None });
         sh.asserts.push(ASpec { col: c + 1, kind: AKind::Sequence { first: 1, stride: n / 4 } });
         sh.exemptions = sh.exemptions.min(sh.max_exemptions());
+    }
+    // trace metadata at the element-chunk boundaries of the three fields
+    if i % 3 == 1 {
+        let lens = [1usize, 3, 7, 8, 9, 15, 16, 17, 22, 24, 31, 32, 33, 46, 50, 64, 100];
+        let l = lens[rng.usize(lens.len())];
+        sh.meta = rng.bytes(l);
     }
     sh
 }
@@ -216,6 +222,41 @@ fn case(i: u64, rng: &mut Rng, st: &mut State, full: bool) {
         }
         checked += 1;
     }
+    // relabelled proofs: the statement data carried in the proof itself (trace metadata, proof
+    // options) is edited in the serialized proof; the result is a proof "for" another statement /
+    // other parameters and must be rejected (or fail to parse)
+    {
+        let bytes = honest_proof.to_bytes();
+        if let Some(map) = wfv::mutate::map_proof(&bytes, wfv::seeds::digest_size(hs)) {
+            let mut edits: Vec<(usize, u8, &str)> = Vec::new();
+            if let Some(f) = map.fields.iter().find(|f| f.name == "context.trace_info.meta") {
+                for k in 0..f.len {
+                    if f.len <= 64 || k + 8 >= f.len || rng.chance(1, 8) {
+                        edits.push((f.off + k, 1 << rng.usize(8), "trace-metadata-byte"));
+                    }
+                }
+            }
+            for name in ["num_queries", "blowup", "grinding", "fri_folding", "fri_remainder_max_degree"] {
+                if let Some(f) = map.fields.iter().find(|f| f.name == format!("context.options.{name}")) {
+                    edits.push((f.off, 1, "proof-option"));
+                    edits.push((f.off, 2, "proof-option"));
+                }
+            }
+            for (off, mask, what) in edits {
+                let mut b = bytes.clone();
+                b[off] ^= mask;
+                match wfv::catch(|| Proof::from_bytes(&b)) {
+                    Ok(Ok(p2)) => match stark::verify_proof(fd, hs, &shape, &values, p2, &acc, false) {
+                        Ok(Ok(())) => st.violation(format!("relabelled-proof-accepted:{what}"), describe(0, 0, "statement data edited inside the proof", format!("byte {off} ^ {mask:#x}, metadata of {} bytes", shape.meta.len()))),
+                        Ok(Err(_)) => st.count(&format!("rejected.relabelled_{what}")),
+                        Err(_) => st.count("relabelled.verifier_panic(see C06)"),
+                    },
+                    _ => st.count(&format!("rejected.relabelled_{what}")),
+                }
+                checked += 1;
+            }
+        }
+    }
     st.add("perturbed_statements", checked);
     st.count(&format!("shapes.{fd:?}"));
     st.distinct.insert(wfv::fnv(format!("{fd:?}{hs:?}{:?}{i}", shape.encode()).as_bytes()));
@@ -228,14 +269,14 @@ fn main() {
     let n = run.size(240, 12_000);
     run.par("shapes", n, |i, rng, st| case(i, rng, st, full));
     let mut require = vec![("shapes.every_cell_corrupted".to_string(), 10), ("still_valid.accepted".to_string(), 20), ("perturbed_statements".to_string(), 100)];
-    for k in ["first-step", "last-enforced-row", "row-before-exemption-boundary", "last-step", "asserted-single", "asserted-periodic", "asserted-sequence", "interior", "perturbed_assertion_value", "perturbed_exemptions", "perturbed_rule-constant"] {
+    for k in ["first-step", "last-enforced-row", "row-before-exemption-boundary", "last-step", "asserted-single", "asserted-periodic", "asserted-sequence", "interior", "perturbed_assertion_value", "perturbed_exemptions", "perturbed_rule-constant", "relabelled_trace-metadata-byte", "relabelled_proof-option"] {
         require.push((format!("rejected.{k}"), 5));
     }
     for f in [Fd::F62, Fd::F64, Fd::F128] {
         require.push((format!("shapes.{f:?}"), 5));
     }
     run.finish(Finish {
-        rule: "per shape of the C01 family (n = 8..64, 1..7 columns, all 12 field x hasher combinations, three extension degrees): every (column, step) cell (all cells while n*width <= 160 in quick, always in thorough; boundary + asserted + sampled cells otherwise) is corrupted by +1 or a random value and proven with the unchanged public inputs; the reference validity predicate decides the expected verdict (invalid -> rejected, still valid -> accepted); rejections are counted per step class (first step, row before / at / after the exemption boundary, last step, asserted cells per assertion kind, interior); then the honest proof is verified against perturbed assertion values and perturbed computation descriptions (exemptions, rule constant, assertion step, periodic value). distinct = distinct (shape instance, corrupted cell, delta)".into(),
+        rule: "per shape of the C01 family (n = 8..64, 1..7 columns, all 12 field x hasher combinations, three extension degrees): every (column, step) cell (all cells while n*width <= 160 in quick, always in thorough; boundary + asserted + sampled cells otherwise) is corrupted by +1 or a random value and proven with the unchanged public inputs; the reference validity predicate decides the expected verdict (invalid -> rejected, still valid -> accepted); rejections are counted per step class (first step, row before / at / after the exemption boundary, last step, asserted cells per assertion kind, interior); then the honest proof is verified against perturbed assertion values and perturbed computation descriptions (exemptions, rule constant, assertion step, periodic value), and the proof itself is relabelled (every byte of its trace metadata - lengths at the element-chunk boundaries -, each proof option) and must then be rejected. distinct = distinct (shape instance, corrupted cell, delta)".into(),
         assumptions: vec![
             "a prover panic/error on an invalid trace counts as 'no proof' (vacuous)".into(),
             "rejection happens at the out-of-domain check with probability >= 1 - deg/|F| >= 1 - 2^-45: treated as deterministic".into(),
